@@ -17,7 +17,6 @@ namespace Levels
 
 -- (kept inside this namespace so that the generated instance names cannot collide with another model's)
 deriving instance DecidableEq for DArr
-deriving instance DecidableEq for Except
 
 inductive LevelFormat where
   | dense | compressed | singleton
